@@ -30,6 +30,52 @@ def run(res, f, tier):
                             "result": p["ret"]})
     import rewrite
     rw_cov = rewrite.apply(res, f, "C05")
+    # the way into the evaluator adds nothing: Expr::evaluate and the per-rule entry hand the whole expression to the
+    # evaluator once and return what it returns — a pass over the tree before (or after) evaluation could raise an
+    # error for, or look at, a sub-expression that evaluation never reaches
+    import anchors
+    import evalsum
+    from norm import norm, norm_cond, show, short_callee
+    try:
+        A = anchors.resolve(f)
+        ev_fn = A["evaluator"][0]
+        EV = short_callee(ev_fn)
+        # the entries: Expr::evaluate, and whatever method of Expr (other than the evaluator and what the evaluator itself
+        # calls) the ruleset evaluation goes through on its way to the evaluator
+        ev_value = evalsum.find_by_name(f, "evaluate_value", "ruleset::RuleSet")
+        below_evaluator = set(evalsum.reachable_local(f, [ev_fn]))
+        from_ruleset = set(evalsum.reachable_local(f, ev_value)) if ev_value else set()
+        entries = [A["expr_eval"]] + sorted(d for d, b in f.bodies.items() if not b.get("parent") and b["kind"] == "AssocFn"
+                                            and (b.get("impl") or {}).get("self_s") == evalsum.EXPR and d in from_ruleset and d not in below_evaluator
+                                            and d != A["expr_eval"] and ev_fn in evalsum.reachable_local(f, [d]))
+        for E in entries:
+            b_ = f.bodies[E]
+            names = [b_["locals"][i].get("name") or "a%d" % i for i in range(1, b_["arg_count"] + 1)]
+            from tss import PathLimit, Unsupported
+            try:
+                paths, it_ = evalsum.run_async_fn(f, E, names, opaque=lambda p_: p_ == ev_fn)
+            except PathLimit as e_:
+                res.violation("C05|entry|%s" % short_callee(E),
+                              "%s does more than hand the expression to the evaluator: its paths could not be enumerated within bounds (%s walks the tree or "
+                              "branches on its shape before evaluation)" % (short_callee(E), e_), {"limit": str(e_)})
+                continue
+            except Unsupported as e_:
+                res.floor_failures.append("entry %s not summarised: %s" % (short_callee(E), e_))
+                continue
+            bad = []
+            for s_, rv_ in paths:
+                calls = [e for e in s_.events if e[0] == "call" and short_callee(e[1]) == EV]
+                ret = show(norm(it_.resolve(s_, rv_)))
+                conds = [norm_cond(c) for c in s_.conds]
+                ok = len(calls) == 1 and ret.startswith("await(%s(" % EV) and show(norm(calls[0][2][0])) in ("self", names[0]) and not conds
+                if not ok:
+                    bad.append({"when": ["%s %s" % c for c in conds][:4], "evaluator_calls": len(calls), "result": ret[:200]})
+            if bad:
+                res.violation("C05|entry|%s" % short_callee(E),
+                              "%s must hand the whole expression to the evaluator exactly once and return its result unchanged (no pass over the tree "
+                              "before or after, no other way to fail): %s" % (short_callee(E), bad[:2]), {"paths": bad[:6]})
+    except Inconclusive as e:
+        res.floor_failures.append("entry points of the evaluator not located: %s" % e)
     # "a sub-expression that is reached invokes its user function": below the evaluator the call goes through the
     # function table, which may skip the invocation only for a function that declares itself cacheable.  Those rules
     # are C11's; the verdict on them is imported.
